@@ -433,7 +433,7 @@ func genVal(t *rapid.T) Val {
 }
 
 var valGen = rapid.OneOf(
-	rapid.SampledFrom([]string{"v", "1", "linux", "x y", "v ", "é日本", "k: v", "\xff", "a\rb", "Benchmark", ":", "\u00a0x", "\u2003", "x\u00a0", "100%", "%s %d", "Unit"}),
+	rapid.SampledFrom([]string{"Master", "master", "MASTER", "Linux", "v", "1", "linux", "x y", "v ", "é日本", "k: v", "\xff", "a\rb", "Benchmark", ":", "\u00a0x", "\u2003", "x\u00a0", "100%", "%s %d", "Unit"}),
 	rapid.StringMatching(`[!-~][ -~]{0,6}`),
 )
 
